@@ -158,17 +158,30 @@ fn w_scn<T: Payload>(n: usize, mode: WMode) -> &'static str {
                 let mut buf_left: Option<Vec<Item>> = None;
                 {
                     let mut w = pin!(tx.write(vals));
-                    let decision = poll_fn(|cx| match w.as_mut().poll(cx) {
-                        Poll::Ready(r) => Poll::Ready(D::Done(r)),
-                        Poll::Pending => {
-                            if mode == WMode::CancelOrDrop {
-                                match choose("guest:write-pending", 3) {
-                                    0 => Poll::Pending,
-                                    1 => Poll::Ready(D::Cancel),
-                                    _ => Poll::Ready(D::Drop),
+                    let mut polled = false;
+                    let decision = poll_fn(|cx| {
+                        // woken again: the guest may cancel / drop *before* looking at the
+                        // operation, i.e. while a delivered completion code is still unread
+                        if polled && mode == WMode::CancelOrDrop {
+                            match choose("guest:write-on-wake", 3) {
+                                1 => return Poll::Ready(D::Cancel),
+                                2 => return Poll::Ready(D::Drop),
+                                _ => {}
+                            }
+                        }
+                        polled = true;
+                        match w.as_mut().poll(cx) {
+                            Poll::Ready(r) => Poll::Ready(D::Done(r)),
+                            Poll::Pending => {
+                                if mode == WMode::CancelOrDrop {
+                                    match choose("guest:write-pending", 3) {
+                                        0 => Poll::Pending,
+                                        1 => Poll::Ready(D::Cancel),
+                                        _ => Poll::Ready(D::Drop),
+                                    }
+                                } else {
+                                    Poll::Pending
                                 }
-                            } else {
-                                Poll::Pending
                             }
                         }
                     })
@@ -294,16 +307,30 @@ fn r_scn<T: Payload>(q: usize, mode: RMode) -> &'static str {
                 {
                     let mut r = pin!(rx.read(Vec::with_capacity(cap)));
                     let mut dropped = false;
-                    let decision = poll_fn(|cx| match r.as_mut().poll(cx) {
-                        Poll::Ready(x) => Poll::Ready(Some(x)),
-                        Poll::Pending => match choose("guest:read-pending", 3) {
-                            0 => Poll::Pending,
-                            1 => Poll::Ready(None),
-                            _ => {
-                                dropped = true;
-                                Poll::Ready(Some((StreamResult::Cancelled, Vec::new())))
+                    let mut polled = false;
+                    let decision = poll_fn(|cx| {
+                        if polled {
+                            match choose("guest:read-on-wake", 3) {
+                                1 => return Poll::Ready(None),
+                                2 => {
+                                    dropped = true;
+                                    return Poll::Ready(Some((StreamResult::Cancelled, Vec::new())));
+                                }
+                                _ => {}
                             }
-                        },
+                        }
+                        polled = true;
+                        match r.as_mut().poll(cx) {
+                            Poll::Ready(x) => Poll::Ready(Some(x)),
+                            Poll::Pending => match choose("guest:read-pending", 3) {
+                                0 => Poll::Pending,
+                                1 => Poll::Ready(None),
+                                _ => {
+                                    dropped = true;
+                                    Poll::Ready(Some((StreamResult::Cancelled, Vec::new())))
+                                }
+                            },
+                        }
                     })
                     .await;
                     match decision {
@@ -443,16 +470,30 @@ fn f_scn(heap: bool, mode: FMode, allow_cancel: bool) -> &'static str {
                         with(|h| h.give_future_end_to_host(rx.take_handle(), None));
                         drop(rx);
                         let mut w = pin!(tx.write($mk));
-                        let d = poll_fn(|cx| match w.as_mut().poll(cx) {
-                            Poll::Ready(r) => Poll::Ready(Some(r)),
-                            Poll::Pending => match choose("guest:fwrite-pending", 3) {
-                                0 => Poll::Pending,
-                                1 => Poll::Ready(None),
-                                _ => {
-                                    rep2.borrow_mut().push("drop write future".into());
-                                    Poll::Ready(Some(Ok(())))
+                        let mut polled = false;
+                        let d = poll_fn(|cx| {
+                            if polled {
+                                match choose("guest:fwrite-on-wake", 3) {
+                                    1 => return Poll::Ready(None),
+                                    2 => {
+                                        rep2.borrow_mut().push("drop write future".into());
+                                        return Poll::Ready(Some(Ok(())));
+                                    }
+                                    _ => {}
                                 }
-                            },
+                            }
+                            polled = true;
+                            match w.as_mut().poll(cx) {
+                                Poll::Ready(r) => Poll::Ready(Some(r)),
+                                Poll::Pending => match choose("guest:fwrite-pending", 3) {
+                                    0 => Poll::Pending,
+                                    1 => Poll::Ready(None),
+                                    _ => {
+                                        rep2.borrow_mut().push("drop write future".into());
+                                        Poll::Ready(Some(Ok(())))
+                                    }
+                                },
+                            }
                         })
                         .await;
                         match d {
@@ -502,13 +543,24 @@ fn f_scn(heap: bool, mode: FMode, allow_cancel: bool) -> &'static str {
                         std::mem::forget(tx);
                         with(|h| h.give_future_end_to_host(wh, Some(vec![0x42, 0x43, 0x44][..if heap { 3 } else { 1 }].to_vec())));
                         let mut r = pin!(rx.into_future());
-                        let d = poll_fn(|cx| match r.as_mut().poll(cx) {
-                            Poll::Ready(v) => Poll::Ready(Some(Some(v))),
-                            Poll::Pending => match choose("guest:fread-pending", 3) {
-                                0 => Poll::Pending,
-                                1 => Poll::Ready(None),
-                                _ => Poll::Ready(Some(None)),
-                            },
+                        let mut polled = false;
+                        let d = poll_fn(|cx| {
+                            if polled {
+                                match choose("guest:fread-on-wake", 3) {
+                                    1 => return Poll::Ready(None),
+                                    2 => return Poll::Ready(Some(None)),
+                                    _ => {}
+                                }
+                            }
+                            polled = true;
+                            match r.as_mut().poll(cx) {
+                                Poll::Ready(v) => Poll::Ready(Some(Some(v))),
+                                Poll::Pending => match choose("guest:fread-pending", 3) {
+                                    0 => Poll::Pending,
+                                    1 => Poll::Ready(None),
+                                    _ => Poll::Ready(Some(None)),
+                                },
+                            }
                         })
                         .await;
                         match d {
@@ -616,13 +668,22 @@ fn s_scn(indirect: bool, result: ResKind, may_drop: bool, two: bool) -> &'static
         let params = imp.params(0x30);
         let call = async {
             let mut c = pin!(imp.call(params));
-            let d = poll_fn(|cx| match c.as_mut().poll(cx) {
-                Poll::Ready(r) => Poll::Ready(Some(r)),
-                Poll::Pending => {
-                    if may_drop && choose("guest:call-pending", 2) == 1 {
-                        Poll::Ready(None)
-                    } else {
-                        Poll::Pending
+            let mut polled = false;
+            let d = poll_fn(|cx| {
+                // woken again: the call future may be dropped before it looks at a status that
+                // was already delivered (select! / timeout where another branch wins)
+                if polled && may_drop && choose("guest:call-on-wake", 2) == 1 {
+                    return Poll::Ready(None);
+                }
+                polled = true;
+                match c.as_mut().poll(cx) {
+                    Poll::Ready(r) => Poll::Ready(Some(r)),
+                    Poll::Pending => {
+                        if may_drop && choose("guest:call-pending", 2) == 1 {
+                            Poll::Ready(None)
+                        } else {
+                            Poll::Pending
+                        }
                     }
                 }
             })
@@ -1220,7 +1281,9 @@ fn m_scn(version: u32, op: MOp, allow_move: bool) -> &'static str {
             if alive[t] {
                 let regs: Vec<u32> = tasks[t].st().regs.keys().copied().collect();
                 for w in regs {
-                    if with(|h| h.entry(w).map(|e| e.pending.is_some()).unwrap_or(false)) {
+                    // an executor only sees events of members of its own waitable set
+                    let set = tasks[t].st().set;
+                    if with(|h| h.in_set(w) == Some(set) && h.entry(w).map(|e| e.pending.is_some()).unwrap_or(false)) {
                         acts.push(A::Deliver(t, w));
                     }
                 }
